@@ -290,7 +290,7 @@ def gen_history(seed, tier, classes=None, weights=None, n_ops=(6, 16),
       cand = {}
       if "verbose" in cp:
         cand["verbose"] = r.choice([True, False])
-      if "max_iter" in cp:
+      if "max_iter" in cp and not s.name.startswith("SCML"):   # SCML: max_iter >= output_iter
         cand["max_iter"] = r.choice([1, 7, 13])
       if "tol" in cp:
         cand["tol"] = r.choice([1e-4, 1e-2])
